@@ -70,8 +70,9 @@ M = [
   "\t\t\tcase <-shouldStopListening:\n\t\t\t\to.Lock()\n\t\t\t\to.listener = nil\n\t\t\t\to.Unlock()", "\t\t\tcase <-shouldStopListening:"),
  ("c17-testdrv-close-out-keeps-sending", "C17", "drivers/testdrv/driver.go",
   "func (f *out) Send(bt []byte) error {\n\tif !f.isOpen {\n\t\treturn drivers.ErrPortClosed\n\t}", "func (f *out) Send(bt []byte) error {\n\tif !f.isOpen && f.rd == nil {\n\t\treturn drivers.ErrPortClosed\n\t}"),
- ("c17-midicat-lowercase-hex", "C17", "drivers/midicatdrv/out.go",
-  "fmt.Fprintf(o.wr, \"%d %X\\n\", 0, b)", "fmt.Fprintf(o.wr, \"%d %x\\n\", 0, b)"),
+ # (lower-case hex in the encoder is harmless: the decoder accepts both cases; see benign ag-C19-b)
+ ("c17-midicat-last-byte-dropped", "C17", "drivers/midicatdrv/out.go",
+  "fmt.Fprintf(o.wr, \"%d %X\\n\", 0, b)", "fmt.Fprintf(o.wr, \"%d %X\\n\", 0, append([]byte{}, b[:len(b)-1]...))"),
  ("c18-checksum-zero-accepted", "C18", "sysex/sysex.go",
   "\tif checksum != s.Checksum() {", "\tif checksum != s.Checksum() && checksum != 0 {"),
  ("c18-goto-frame-subframe-swapped", "C18", "mmc/mmc.go",
